@@ -283,3 +283,45 @@ fn var_grad_dim1() {
 fn var_grad_dim2() {
     body_grad::<2>();
 }
+
+// ---- TEMP probes
+fn probe(which: u8) {
+    let mut math = mk(1);
+    let old_std: [f64; 1] = any_arr();
+    let old_inv: [f64; 1] = any_arr();
+    let dv: [f64; 1] = any_arr();
+    let gv: [f64; 1] = any_arr();
+    let fill = if which == 3 { Some(1.0) } else if which == 4 { None } else { any_fill() };
+    let mut std = vec_of(&mut math, &old_std);
+    let mut inv_std = vec_of(&mut math, &old_inv);
+    let draw_var = vec_of(&mut math, &dv);
+    let grad_var = vec_of(&mut math, &gv);
+    math.array_update_var_inv_std_draw_grad(&mut inv_std, &mut std, &draw_var, &grad_var, fill, CLAMP);
+    let new_std: [f64; 1] = read(&mut math, &std);
+    let new_inv: [f64; 1] = read(&mut math, &inv_std);
+    if which == 1 || which == 3 || which == 4 {
+        if pos_fin(old_std[0]) && pos_fin(old_inv[0]) {
+            assert!(pos_fin(new_std[0]));
+            assert!(pos_fin(new_inv[0]));
+        }
+    }
+    if which == 2 {
+        let q = dv[0] / gv[0];
+        if !(q.is_finite() && q > 0.0) && fill.is_none() {
+            assert!(new_std[0].to_bits() == old_std[0].to_bits());
+            assert!(new_inv[0].to_bits() == old_inv[0].to_bits());
+        }
+    }
+}
+#[kani::proof]
+#[kani::unwind(3)]
+fn probe_nd() { probe(1) }
+#[kani::proof]
+#[kani::unwind(3)]
+fn probe_keep() { probe(2) }
+#[kani::proof]
+#[kani::unwind(3)]
+fn probe_nd_some() { probe(3) }
+#[kani::proof]
+#[kani::unwind(3)]
+fn probe_nd_none() { probe(4) }
